@@ -165,8 +165,23 @@ func init() {
 			rounds = 300
 		}
 		exe, _ := os.Executable()
-		out, err := exec.Command(exe, "-child", "apiconc:"+strconv.Itoa(rounds)).CombinedOutput()
-		c.Eval(int64(rounds) * 8 * apiItems)
+		// what the library builds lazily is built once per process, in its first microseconds: five short-lived children
+		// first (each one's very first use of everything is concurrent), then the long one
+		var out []byte
+		var err error
+		for pre := 0; pre < 5; pre++ {
+			o, e := exec.Command(exe, "-child", "apiconc:2").CombinedOutput()
+			out = append(out, o...)
+			if e != nil {
+				err = e
+			}
+		}
+		o, e := exec.Command(exe, "-child", "apiconc:"+strconv.Itoa(rounds)).CombinedOutput()
+		out = append(out, o...)
+		if e != nil {
+			err = e
+		}
+		c.Eval(int64(rounds+10) * 8 * apiItems)
 		if err != nil && !strings.Contains(string(out), "DATA RACE") {
 			c.Res.Violations = append(c.Res.Violations, raceViolation(c16CrashKey(string(out))+"/concurrent-callers", "8 goroutines using the sequential API on objects of their own kill the process: "+c16CrashLine(string(out))))
 		}
